@@ -113,7 +113,7 @@ def run(pid, tier, seed):
         if os.path.exists(os.path.join(common.SPEC, "GEN_%sp.cfg" % mcp)):
             # behaviours of the model in which a client stops reading for a while (client-side back-pressure)
             genp = gen_tlc.scenarios(mcp + "p", 60 if q else 1500, seed * 1000 + 77)
-            genp = [s for s in genp if any(x["op"] == "pause" for x in _stims(s))]
+            genp = [s for s in genp if any(x["op"] in ("pause", "ndown") for x in _stims(s))]
             cov["generated"] += len(genp)
             groups.append((gen_tlc.cfg_for(mcp + "p"), genp, "tlcp", None))
         # 3. random walks over the same stimulus alphabet
